@@ -196,6 +196,8 @@ func SpecMatch(pattern string, hasWild bool, s string) bool {
 //@ immutable Cache.mq, Cache.resetThrottle, Cache.metrics
 // An access verdict is never modified after it has been created.
 //@ immutable Access.AccessResult, Access.Error
+// The kind of an event is fixed when the event is created.
+//@ immutable ResourceEvent.Event
 
 // Callbacks stored in the per-resource work queue are run exactly once by processQueue.
 //@ pending EventSubscription.queue, EventSubscription.locks
@@ -285,7 +287,7 @@ func SpecMatch(pattern string, hasWild bool, s string) bool {
 //@   requires predCacheOK(c) && c.mq != nil
 //@   resolves[C07] cb exactly-once
 //@   callback cb requires err != nil ==> reserr.predErrOK(err)
-//@   assigns pkgstate(rescache), funcqueues()
+//@   assigns pkgstate(rescache), cachecontainers()
 //@   safety[C15]
 //@ closure (*Cache).sendRequest#1
 //@   requires eventSub != nil && eventSub.cache != nil
@@ -310,7 +312,7 @@ func SpecMatch(pattern string, hasWild bool, s string) bool {
 //@ func (*Cache).Subscribe
 //@   requires c != nil && sub != nil
 //@   assumes predCacheOK(c)
-//@   assigns pkgstate(rescache), funcqueues()
+//@   assigns pkgstate(rescache), cachecontainers()
 
 // Access: exactly one verdict per request; a transport error or a missing result is a denial
 // (the verdict then carries the error), so a verdict is always well formed.
@@ -320,7 +322,7 @@ func SpecMatch(pattern string, hasWild bool, s string) bool {
 //@   assumes predCacheOK(c) && c.mq != nil
 //@   resolves[C07] callback exactly-once
 //@   callback callback requires[C04] access != nil && (access.Error != nil || access.AccessResult != nil)
-//@   assigns pkgstate(rescache), funcqueues()
+//@   assigns pkgstate(rescache), cachecontainers()
 //@   safety[C15]
 //@ closure (*Cache).Access#1
 //@   resolves[C07] callback exactly-once
@@ -332,7 +334,7 @@ func SpecMatch(pattern string, hasWild bool, s string) bool {
 //@   requires c != nil && req != nil
 //@   assumes predCacheOK(c) && c.mq != nil
 //@   resolves[C07] callback exactly-once
-//@   assigns pkgstate(rescache), funcqueues()
+//@   assigns pkgstate(rescache), cachecontainers()
 //@   safety[C15]
 //@ closure (*Cache).Call#1
 //@   resolves[C07] callback exactly-once
@@ -344,7 +346,7 @@ func SpecMatch(pattern string, hasWild bool, s string) bool {
 //@   requires c != nil && req != nil
 //@   assumes predCacheOK(c) && c.mq != nil
 //@   resolves[C07] callback exactly-once
-//@   assigns pkgstate(rescache), funcqueues()
+//@   assigns pkgstate(rescache), cachecontainers()
 //@   safety[C15]
 //@ closure (*Cache).Auth#1
 //@   resolves[C07] callback exactly-once
